@@ -70,7 +70,7 @@ func calcHeader(header *base.RtmpHeader, prevHeader *base.RtmpHeader, out []byte
 					fmt++
 				}
 			}
-			if header.TimestampAbs > maxTimestampInMessageHeader {
+			if header.TimestampAbs >= maxTimestampInMessageHeader {
 				// 将数据打包成rtmp chunk发送给vlc，时间戳超过3字节最大范围时，
 				// vlc认为fmt0和fmt3两种格式，都需要携带扩展时间戳字段，并且该时间戳字段必须使用绝对时间戳。
 				timestamp = header.TimestampAbs
@@ -126,7 +126,8 @@ func calcHeader(header *base.RtmpHeader, prevHeader *base.RtmpHeader, out []byte
 	}
 
 	// 设置扩展时间戳
-	if timestamp > maxTimestampInMessageHeader {
+	// 注意，等于0xFFFFFF时也必须携带扩展时间戳：对端（包括ChunkComposer）看到3字节字段为0xFFFFFF就会读取扩展时间戳
+	if timestamp >= maxTimestampInMessageHeader {
 		bele.BePutUint32(out[index:], timestamp)
 		index += 4
 	}
